@@ -328,6 +328,7 @@ structure Writer where
   count : Nat
   buflen : Nat := 0
   isOpen : Bool := true
+  rsv : List Nat := []   -- ghost: the blocks `maybeWebseed` reserved when it created this writer
 deriving Repr, Inhabited
 
 /-! ### global state -/
@@ -726,7 +727,8 @@ def step (s : State) (op : Op) : State × Res :=
         -- hole starts on a block boundary and lies inside the piece
         if o % CS ≠ 0 ∨ o + l > s.g.pieceLength idx then ({ s with panicked := true }, .panic) else
         let s1 := incrAll s (wsChunks s.g idx o l)
-        ({ s1 with writers := s1.writers ++ [{ idx := idx, offset := o, count := l }] }, .res o l)
+        ({ s1 with writers := s1.writers ++ [{ idx := idx, offset := o, count := l, rsv := wsChunks s.g idx o l }] },
+          .res o l)
   | .wWrite w n =>
     match s.writers[w]? with
     | none => (s, .bad)
@@ -814,6 +816,107 @@ def minusT (s : State) (i : Nat) : Nat :=
 /-- number of connected peers whose bitmap advertises piece `i` -/
 def advertised (s : State) (i : Nat) : Nat :=
   sumL (fun p => if p.alive && getB p.bits i then 1 else 0) s.peers
+
+/-- number of web-seed reservations made so far that covered block `b` -/
+def resv (s : State) (b : Nat) : Nat := sumL (fun w => cnt b w.rsv) s.writers
+
+/-- The enabling conditions of the real scheduler, as a predicate on one step:
+    `periodicRequest` asks a peer for a block only while `inFlight < maxInFlight(prio) ≤ 3` (a block
+    that occurs several times in one request — one entry per priority level — passes the guard of
+    each entry, so the sum stays ≤ 3); the environment hypotheses: no block is covered by more than
+    252 web-seed reservations in the whole history, and at most 50 peers (`MaxPeersPerTorrent`)
+    ever enter the peer table. -/
+def stepGuard (s : State) : Op → Prop
+  | .request _ cs _ => ∀ c, 0 < cnt c cs → getN s.inFlight c + cnt c cs ≤ 3
+  | .wsReserve idx => ∀ b, resv (step s (.wsReserve idx)).1 b ≤ 252
+  | .connect _ _ _ => s.peers.length < 50
+  | _ => True
+
+def Guarded (s : State) : List Op → Prop
+  | [] => True
+  | op :: ops => stepGuard s op ∧ Guarded (step s op).1 ops
+
+/-! ### histories: what was commanded, what was answered -/
+
+def Res.isOk : Res → Bool
+  | .ok => true
+  | _ => false
+
+/-- blocks still pending at peer `k`: in PeerRequests it has not consumed yet, queued, or sent -/
+def pendL (k b : Nat) (l : List Peer) : Nat :=
+  match l[k]? with
+  | some p => reqOwed b p.evq + p.outstanding b
+  | none => 0
+
+def pend (k b : Nat) (s : State) : Nat := pendL k b s.peers
+
+/-- the blocks of the PeerRequest peer `k` accepted in this step (`request` answered `ok`) -/
+def stepAccepted (s : State) (op : Op) (k : Nat) : List Nat :=
+  match op with
+  | .request i cs _ => if i = k ∧ (step s op).2.isOk = true then cs else []
+  | _ => []
+
+/-- the events peer `k` emits in this step (its handlers' output, before routing) -/
+def stepEmitted (s : State) (op : Op) (k : Nat) : List TorEv :=
+  if s.panicked then [] else
+  match op with
+  | .peerEvent i slow =>
+    if i ≠ k then [] else
+    match s.peers[i]? with
+    | none => []
+    | some p =>
+      if !p.alive then [] else
+      match p.evq with
+      | [] => []
+      | e :: rest => (handlePeerEv s.g { p with evq := rest } e slow).2.1
+  | .peerMsg i m slow =>
+    if i ≠ k then [] else
+    match s.peers[i]? with
+    | none => []
+    | some p => if !p.alive then [] else (handleMsg s.g s.pieces i p m slow).2.1
+  | .tick i rto slow =>
+    if i ≠ k then [] else
+    match s.peers[i]? with
+    | none => []
+    | some p =>
+      if !p.alive then [] else
+      if p.requested.isEmpty then [] else
+      let to := min rto 5000 + (if p.canFast then 2000 else 0)
+      let r := expireLoop s.g to (p.requested.length + 1) 0 p [] false
+      if r.2.2 then (maybeRequest s.g slow r.1 r.2.1).2 else r.2.1
+  | .exit i =>
+    if i ≠ k then [] else
+    match s.peers[i]? with
+    | none => []
+    | some p => if !p.alive then [] else exitEvents s.g i p
+  | _ => []
+
+/-- the blocks `delPeer` releases on behalf of peer `k` in this step (requests the peer never consumed) -/
+def stepDrained (s : State) (op : Op) (k : Nat) : List Nat :=
+  if s.panicked || s.blocked then [] else
+  match op with
+  | .torEvent =>
+    match s.tEvent with
+    | .goaway p :: _ =>
+      if p ≠ k then [] else
+      match s.peers[p]? with
+      | none => []
+      | some pr => if pr.present then pr.evq.flatMap reqChunks else []
+    | _ => []
+  | _ => []
+
+def histAccepted (k b : Nat) : State → List Op → Nat
+  | _, [] => 0
+  | s, op :: ops => cnt b (stepAccepted s op k) + histAccepted k b (step s op).1 ops
+
+/-- number of TorData/TorDrop answers for block `b` emitted by peer `k` over the history -/
+def histAnswered (k b : Nat) : State → List Op → Nat
+  | _, [] => 0
+  | s, op :: ops => covL s.g b (stepEmitted s op k) + histAnswered k b (step s op).1 ops
+
+def histDrained (k b : Nat) : State → List Op → Nat
+  | _, [] => 0
+  | s, op :: ops => cnt b (stepDrained s op k) + histDrained k b (step s op).1 ops
 
 def quiescent (s : State) : Prop :=
   s.tEvent = [] ∧ ∀ p ∈ s.peers, p.evq = [] ∧ p.overflow = []
